@@ -327,6 +327,21 @@ func runHelper(c hcase) (res hresult) {
 	return
 }
 
+// rank orders the cases of part (a) from simple to complex (for the choice of the stored replay).
+func (c hcase) rank() int64 {
+	r := int64(c.L)*1000 + int64(len(c.Chunks))*100 + int64(c.Cancel+1)
+	if c.ErrAt >= 0 {
+		r += 20
+	}
+	if c.WErrAt >= 0 {
+		r += 20
+	}
+	if c.WriterTo || c.ReaderFrom || c.EOFWithData {
+		r += 10
+	}
+	return r
+}
+
 func isPrefix(p, of []byte) bool {
 	return len(p) <= len(of) && string(p) == string(of[:len(p)])
 }
@@ -360,9 +375,16 @@ func cancelClass(c hcase) string {
 	return "mid"
 }
 
+// sig computes the signature of a violated clause from the class of the case. The instant of cancellation is part of
+// the class only for the clauses that are about cancellation (and for panics, together with the capacity class);
+// the other clauses (prefix, maximum, count, kinds) are classified by helper and by the relation of max/n to the length.
 func (c hcase) sig(clause string) string {
-	s := fmt.Sprintf("a:%s:%s:max=%s:cancel=%s", c.Fn, clause, maxClass(c), cancelClass(c))
-	if c.Fn == "ReadAtMost" {
+	s := fmt.Sprintf("a:%s:%s:max=%s", c.Fn, clause, maxClass(c))
+	aboutCancellation := strings.HasPrefix(clause, "pre-cancelled") || strings.HasPrefix(clause, "read-started") || strings.HasPrefix(clause, "context-kind") || strings.HasPrefix(clause, "panic")
+	if aboutCancellation {
+		s += ":cancel=" + cancelClass(c)
+	}
+	if c.Fn == "ReadAtMost" && strings.HasPrefix(clause, "panic") {
 		if c.Cap < 0 {
 			s += ":cap=default"
 		} else {
@@ -744,7 +766,8 @@ type helperStats struct {
 	samples                   []any
 }
 
-type violationSink func(sig string, replay any)
+// violationSink records a violating case; of the cases of one signature the one with the lowest rank is kept as replay.
+type violationSink func(sig string, replay any, rank int64)
 
 // runHelperJob enumerates a job: for every base case the run without cancellation (which also measures the number T
 // of stream calls), the two pre-cancelled runs, and for BOTH flavours the run whose context ends after the j-th
@@ -758,7 +781,7 @@ func runHelperJob(j helperJob, thorough bool, viol violationSink) helperStats {
 		st.outcomes[c.Fn+":"+cancelClass(c)+":"+outcome]++
 		for _, cl := range clauses {
 			viol(c.sig(cl), map[string]any{"part": "a", "case": c, "got_n": r.n, "got_err": fmt.Sprint(r.err), "got_kind": kindName(r.err),
-				"panic": r.panicked, "reads": r.e.reads, "writes": r.e.writes, "reads_after_end": r.e.readAfterEnd})
+				"panic": r.panicked, "reads": r.e.reads, "writes": r.e.writes, "reads_after_end": r.e.readAfterEnd}, c.rank())
 		}
 		return r
 	}
@@ -841,22 +864,22 @@ func fileLimitCases(viol violationSink) (evals int64, outcomes map[string]int64)
 					switch {
 					case pre != "":
 						if !isCtxKind(err) {
-							viol(sig("pre-cancelled-kind="+kind), replay)
+							viol(sig("pre-cancelled-kind="+kind), replay, int64(l))
 						}
 					case int64(l) > m:
 						if !commonerrors.Any(err, commonerrors.ErrTooLarge) {
-							viol(sig("larger-file-not-refused-kind="+kind), replay)
+							viol(sig("larger-file-not-refused-kind="+kind), replay, int64(l))
 						}
 						if len(content) > 0 {
-							viol(sig("larger-file-content-returned"), replay)
+							viol(sig("larger-file-content-returned"), replay, int64(l))
 						}
 					case l == 0:
 						if !(err == nil || kind == "empty") || len(content) != 0 {
-							viol(sig("empty-file-kind="+kind), replay)
+							viol(sig("empty-file-kind="+kind), replay, int64(l))
 						}
 					default:
 						if err != nil || string(content) != string(sourceBytes[:l]) {
-							viol(sig("fitting-file-not-returned-whole-kind="+kind), replay)
+							viol(sig("fitting-file-not-returned-whole-kind="+kind), replay, int64(l))
 						}
 					}
 				}
